@@ -276,7 +276,8 @@ class Base(_BaseClass):
              url("\"") => "
         """
         if token:
-            value = token[1][4: - 1].strip()
+            # ("url(" may be written with escapes: r"\u\rl(")
+            value = token[1][token[1].find('(') + 1: - 1].strip()
             if value and (value[0] in '\'"') and (value[0] == value[- 1]):
                 # a string "..." or '...'
                 value = value.replace('\\' + value[0], value[0])[1: - 1]
